@@ -84,6 +84,129 @@ Theorem guard_hclose_reports_failed_update : forall r, hclose_fails_when_update_
 Proof. exact hclose_fails_spec. Qed.
 Print Assumptions guard_hclose_reports_failed_update.
 
+(** POSITION of the guards (regenerated from the control structure of the current sources): every guard stands at
+    conditional depth 0 of its function (no branch can bypass it), no effect of the function precedes it, and the
+    guarded SD handle is not re-assigned after it.  A guard moved into a branch, or a handle looked up again after
+    the guard, changes these numbers. *)
+Theorem guards_dominate :
+  sdcreate_guard_depth = 0 /\
+  sdcreate_handle_reassigned_after_guard = 0 /\
+  sdsetdimname_guard_depth = 0 /\
+  sdsetdimname_handle_reassigned_after_guard = 0 /\
+  sdsetrange_guard_depth = 0 /\
+  sdsetrange_handle_reassigned_after_guard = 0 /\
+  sdsetattr_guard_depth = 0 /\
+  sdsetattr_handle_reassigned_after_guard = 0 /\
+  sdsetdatastrs_guard_depth = 0 /\
+  sdsetdatastrs_handle_reassigned_after_guard = 0 /\
+  sdsetcal_guard_depth = 0 /\
+  sdsetcal_handle_reassigned_after_guard = 0 /\
+  sdsetfillvalue_guard_depth = 0 /\
+  sdsetfillvalue_handle_reassigned_after_guard = 0 /\
+  sdsetdimstrs_guard_depth = 0 /\
+  sdsetdimstrs_handle_reassigned_after_guard = 0 /\
+  sdsetdimscale_guard_depth = 0 /\
+  sdsetdimscale_handle_reassigned_after_guard = 0 /\
+  sdsetdimval_comp_guard_depth = 0 /\
+  sdsetdimval_comp_handle_reassigned_after_guard = 0 /\
+  sdwritedata_guard_depth = 0 /\
+  sdwritedata_handle_reassigned_after_guard = 0 /\
+  sdsetexternalfile_guard_depth = 0 /\
+  sdsetexternalfile_handle_reassigned_after_guard = 0 /\
+  sdsetcompress_guard_depth = 0 /\
+  sdsetcompress_handle_reassigned_after_guard = 0 /\
+  sdsetchunk_guard_depth = 0 /\
+  sdsetchunk_handle_reassigned_after_guard = 0 /\
+  sdsetnbitdataset_guard_depth = 0 /\
+  sdsetnbitdataset_handle_reassigned_after_guard = 0 /\
+  sdwritechunk_guard_depth = 0 /\
+  sdwritechunk_handle_reassigned_after_guard = 0 /\
+  grsetattr_guard_depth = 0 /\
+  grsetattr_effects_before_guard = 0 /\
+  hstartaccess_guard_depth = 0 /\
+  hstartaccess_effects_before_guard = 0 /\
+  hsetlength_guard_depth = 0 /\
+  hsetlength_effects_before_guard = 0 /\
+  hlcreate_guard_depth = 0 /\
+  hlcreate_effects_before_guard = 0 /\
+  hlconvert_guard_depth = 0 /\
+  hlconvert_effects_before_guard = 0 /\
+  hxcreate_guard_depth = 0 /\
+  hxcreate_effects_before_guard = 0 /\
+  hccreate_guard_depth = 0 /\
+  hccreate_effects_before_guard = 0 /\
+  hmccreate_guard_depth = 0 /\
+  hmccreate_effects_before_guard = 0 /\
+  hmcwritechunk_guard_depth = 0 /\
+  hmcwritechunk_effects_before_guard = 0 /\
+  hdupdd_guard_depth = 0 /\
+  hdupdd_effects_before_guard = 0 /\
+  hdeldd_guard_depth = 0 /\
+  hdeldd_effects_before_guard = 0 /\
+  hdreuse_tagref_guard_depth = 0 /\
+  hdreuse_tagref_effects_before_guard = 0 /\
+  vattach_guard_depth = 0 /\
+  vattach_effects_before_guard = 0 /\
+  vdelete_guard_depth = 0 /\
+  vdelete_effects_before_guard = 0 /\
+  vsdelete_guard_depth = 0 /\
+  vsdelete_effects_before_guard = 0 /\
+  vaddtagref_guard_depth = 0 /\
+  vaddtagref_effects_before_guard = 0 /\
+  vdeletetagref_guard_depth = 0 /\
+  vdeletetagref_effects_before_guard = 0 /\
+  vswrite_guard_depth = 0 /\
+  vswrite_effects_before_guard = 0 /\
+  hwrite_guard_depth = 0 /\
+  hwrite_effects_before_guard = 0 /\
+  htrunc_guard_depth = 0 /\
+  htrunc_effects_before_guard = 0.
+Proof. exact guards_dominate_full. Qed.
+Print Assumptions guards_dominate.
+
+(** Hopen of an already open path gives the shared record the write bit only after the reopen was attempted and
+    after the last failing exit of that block; a refused reopen (and any open that asks for no write access) leaves
+    a read-only record read-only and writes nothing. *)
+Theorem hopen_upgrade_after_last_exit :
+  hopen_failing_exits_after_upgrade = 0 /\ hopen_reopen_attempts_before_upgrade = 1 /\ hopen_upgrade_bits = DFACC_WRITE.
+Proof. exact hopen_upgrade_position. Qed.
+Print Assumptions hopen_upgrade_after_last_exit.
+
+Theorem refused_reopen_keeps_read_only : forall f mode f' r w,
+  ro_inv f -> hopen_again f mode false = (f', r, w) -> ro_inv f' /\ w = [].
+Proof. exact hopen_again_refused_keeps_ro. Qed.
+Print Assumptions refused_reopen_keeps_read_only.
+
+Theorem read_only_reopen_keeps_read_only : forall f mode ok f' r w,
+  ro_inv f -> Z.land mode DFACC_WRITE = 0 -> hopen_again f mode ok = (f', r, w) -> ro_inv f' /\ w = [].
+Proof. exact hopen_again_readonly_keeps_ro. Qed.
+Print Assumptions read_only_reopen_keeps_read_only.
+
+(** The guards of the SD layer and of GRsetattr (no model above them: their conditions and positions only). *)
+Theorem sd_guards_need_rdwr :
+  nc_guard sdcreate_denied /\
+  nc_guard sdsetdimname_denied /\
+  nc_guard sdsetrange_denied /\
+  nc_guard sdsetattr_denied /\
+  nc_guard sdsetdatastrs_denied /\
+  nc_guard sdsetcal_denied /\
+  nc_guard sdsetfillvalue_denied /\
+  nc_guard sdsetdimstrs_denied /\
+  nc_guard sdsetdimscale_denied /\
+  nc_guard sdsetdimval_comp_denied /\
+  nc_guard sdwritedata_denied /\
+  nc_guard sdsetexternalfile_denied /\
+  nc_guard sdsetcompress_denied /\
+  nc_guard sdsetchunk_denied /\
+  nc_guard sdsetnbitdataset_denied /\
+  nc_guard sdwritechunk_denied.
+Proof. exact sd_guards_full. Qed.
+Print Assumptions sd_guards_need_rdwr.
+
+Theorem gr_guard_needs_write_bit : write_guard grsetattr_denied.
+Proof. exact grsetattr_guard. Qed.
+Print Assumptions gr_guard_needs_write_bit.
+
 Theorem guard_vattach : forall mode facc,
   vattach_denied mode facc = 1 <-> (mode = CH_W /\ Z.land facc DFACC_WRITE = 0).
 Proof. exact vattach_denied_spec. Qed.
@@ -148,6 +271,13 @@ Example ex_read_only_close_of_versionless_file :
   let '(f1, aid, _) := hstartaccess f 1000 1 DFACC_READ in
   let '(f2, _, _) := hendaccess f1 aid in
   f_vmod f2 = 1 /\ (let '(f3, r, w) := hclose f2 in (r, w, f_open f3)) = (0, [], false).
+Proof. vm_compute. split; reflexivity. Qed.
+
+(** a granted reopen for writing does give the record the write bit (so the theorems above are about refusal) *)
+Example ex_granted_reopen_upgrades :
+  let f := hopen_existing DFACC_READ ex_dds 444 (4, 3, 1) in
+  Z.land (f_access (fst (fst (hopen_again f DFACC_RDWR true)))) DFACC_WRITE = 2 /\
+  Z.land (f_access (fst (fst (hopen_again f DFACC_RDWR false)))) DFACC_WRITE = 0.
 Proof. vm_compute. split; reflexivity. Qed.
 
 (** S: the monitor flags a succeeding mutator, a device write and changed bytes while the file is read-only *)
